@@ -41,4 +41,38 @@ theorem negative_change_with_sufficient_funds :
     WF i ∧ ¬ P16 i (rawTx i) := by
   refine ⟨by decide, by decide⟩
 
+/-- `rawTx` as found before the amount cap (fix dd1410a): both sufficiency tests, but the proposal amounts are summed in
+    uint64 and cast to int64 unchecked -/
+def rawTxNoCap (i : Inp) : Option Tx :=
+  match propOuts i.props, i.cid.bind nullData with
+  | some pouts, some nd =>
+    let n := i.props.length
+    let outAmt := sumAmounts i.props % M
+    match i.rate1, i.utxos with
+    | some r1, some us =>
+      match select ((outAmt + feeOf r1 n n) % M) us 0 with
+      | none => none
+      | some (inAmt, used) =>
+        if inAmt < outAmt then none
+        else match i.rate2 with
+          | none => none
+          | some r2 =>
+            let fee := feeOf r2 used.length (n + 1)
+            if inAmt < (outAmt + fee) % M then none
+            else
+              let ret := (inAmt + 2 * M - fee - outAmt) % M
+              let change := if ret > 0 then [⟨toInt64 ret, i.bridge⟩] else []
+              some ⟨used, pouts ++ [⟨0, nd⟩] ++ change⟩
+    | _, _ => none
+  | _, _ => none
+
+/-- a batch of 2^64−1 and 2 satoshi (sum wraps to 1) against one 50 000-sat UTXO: a transaction whose first payment output
+    is −1 satoshi; likewise twice 2^63 -/
+theorem negative_payment_witness :
+    let i (a b : Nat) : Inp := ⟨some 1, some 1, some [], [0x51], [⟨a, some [0]⟩, ⟨b, some [1]⟩], some [⟨[97], 0, 50000, 1000, true⟩]⟩
+    (rawTxNoCap (i (2 ^ 64 - 1) 2)).map (·.outs.map (·.value)) = some [-1, 2, 0, 48589] ∧
+    (rawTxNoCap (i (2 ^ 63) (2 ^ 63))).map (·.outs.map (·.value)) = some [-(2 ^ 63 : Int), -(2 ^ 63 : Int), 0, 48590] ∧
+    ¬ P16 (i (2 ^ 64 - 1) 2) (rawTxNoCap (i (2 ^ 64 - 1) 2)) := by
+  refine ⟨by decide, by decide, by decide⟩
+
 end Sygma.C16.AsFound
